@@ -24,12 +24,12 @@ func init() {
 		Rules: []*core.Rule{
 			{ID: "C10-R1", Title: "one Go channel operation per script channel operation", Floor: 4, Run: c10r1},
 			{ID: "C10-R2", Title: "values pass through channels untouched", Floor: 3, Run: c10r2},
-			{ID: "C10-R3", Title: "thread result published before done", Floor: 2, Run: c10r3},
+			{ID: "C10-R3", Title: "thread result published before done", Floor: 1, Run: c10r3},
 			{ID: "C10-R4", Title: "spawned calls run on a fresh clone", Floor: 1, Run: c10r4},
 			{ID: "C10-R5", Title: "the spawned call's error reaches wait() by identity", Floor: 5, Run: c10r5},
 			{ID: "C10-R6", Title: "spawned and cloned calls run on a clone made for that call", Floor: 2, Run: freshClonePerCall},
 			{ID: "C10-R7", Title: "Spawn hands the new thread a copy of the arguments", Floor: 1, Run: spawnCopiesArgs},
-			{ID: "C10-R8", Title: "arguments of a spawned call are evaluated at the spawn site (partial mode off for operands)", Floor: 2, Run: partialModeOffForOperands},
+			{ID: "C10-R8", Title: "arguments of a spawned call are evaluated at the spawn site (partial mode off for operands)", Floor: 1, Run: partialModeOffForOperands},
 			{ID: "C10-R9", Title: "clones get their own copy of the mutex-guarded VM maps (shared with C09-R5)", Floor: 2, Run: c09r5},
 			{ID: "C10-R10", Title: "recover() is called by the deferred function itself (a panicking spawned call becomes the thread's error)", Floor: 3, Run: recoverIsDirectlyDeferred},
 			{ID: "C10-R11", Title: "the thread's call returns the spawned callable's result untouched", Floor: 1, Run: spawnedResultPassesThrough},
